@@ -263,8 +263,32 @@ func (c eqCase) labels() string {
 
 var types, rich = corpus.Standard(), corpus.Rich(20)
 
+// extendable lists the types that have at least two registered extensions, one of them repeated.
+var extendable = func() []string {
+	var out []string
+	for _, n := range types {
+		md := corpus.ByName(n).Descriptor()
+		if md.ExtensionRanges().Len() == 0 {
+			continue
+		}
+		xs := model.ExtensionsOf(md.FullName())
+		rep := false
+		for _, x := range xs {
+			rep = rep || x.TypeDescriptor().IsList()
+		}
+		if len(xs) >= 2 && rep {
+			out = append(out, n)
+		}
+	}
+	return out
+}()
+
 func drawCase(t *rapid.T) eqCase {
 	c := eqCase{Type: gen.TypeName(types, rich).Draw(t, "type"), Det: rapid.Bool().Draw(t, "det"), NoLazy: rapid.Bool().Draw(t, "nolazy")}
+	if len(extendable) > 0 && rapid.IntRange(0, 7).Draw(t, "extendable") == 0 {
+		// messages with registered extensions are a handful among ~1000 types: a fixed share
+		c.Type = extendable[rapid.IntRange(0, len(extendable)-1).Draw(t, "ext-type")]
+	}
 	c.Flavour = rapid.SampledFrom([]int{flavGenerated, flavGenerated, flavGenerated, flavDynamic, flavMixed}).Draw(t, "flavour")
 	md := corpus.ByName(c.Type).Descriptor()
 	o := gen.DefaultMsgOpts
@@ -278,6 +302,11 @@ func drawCase(t *rapid.T) eqCase {
 		}
 		d := gen.NearMiss(t, md, c.V[from].M, o)
 		c.V[i] = variant{M: d.M, NilBytes: d.NilBytes, Touch: d.Touch, Label: d.Label, From: from, Depth: d.Depth, Oneof: d.Oneof}
+		// allocated-but-empty containers (incl. extension map entries holding an empty list) never
+		// change a verdict, so they are combined freely with every other derivation
+		if !c.V[i].Touch && rapid.IntRange(0, 3).Draw(t, "also-touch") == 0 {
+			c.V[i].Touch = true
+		}
 		if d.Label == "indep" {
 			c.V[i].From = -1
 		}
